@@ -1520,7 +1520,9 @@ var startMu sync.Mutex
 // loser fails to bind while its readiness probe is answered by the winner.
 // Starts are therefore serialised here and the identity of the server that
 // answers is compared with the server_id in the data directory's config file.
-func startServer(dir string) (*t38.Srv, error) {
+func startServer(dir string) (*t38.Srv, error) { return startServerOpts(dir, t38.Opts{}) }
+
+func startServerOpts(dir string, opts t38.Opts) (*t38.Srv, error) {
 	startMu.Lock()
 	defer startMu.Unlock()
 	var last error
@@ -1528,7 +1530,8 @@ func startServer(dir string) (*t38.Srv, error) {
 		if dir == "" {
 			dir = t38.NewDir("c14")
 		}
-		srv, err := t38.Start(t38.Opts{Dir: dir})
+		opts.Dir = dir
+		srv, err := t38.Start(opts)
 		if err != nil {
 			last = err
 			continue
